@@ -99,11 +99,30 @@ func TestVerif_C47(t *testing.T) {
 				}()
 				return h.Parse(exact)
 			}()
+			// the same input as a prefix of a larger (recycled) buffer: what lies behind len(in) must not matter, the
+			// length of the input is len, not cap
+			roomy := make([]byte, 64)
+			for k := range roomy {
+				roomy[k] = byte(0x11 + k) // would parse as a plausible header if it were read
+			}
+			copy(roomy, in)
+			var hr H
+			hr.RemoteIndex, hr.MessageCounter = 0xfeedface, 0xfeedfacefeedface
+			errRoomy := hr.Parse(roomy[:len(in)])
+			res.Hit("parse:roomy-buffer")
 			if v.Exp.Err != "" {
 				if err != ErrHeaderTooShort {
 					res.Mismatch("parse:short", fmt.Sprintf("Parse of %d bytes: err=%v, specification refuses (too short)", len(in), err), v.In)
 				}
+				if errRoomy != ErrHeaderTooShort {
+					res.Mismatch("parse:short:spare-capacity", fmt.Sprintf("Parse of %d bytes that sit in a larger buffer: err=%v, specification refuses (too short); fields now %+v", len(in), errRoomy, hr), v.In)
+				} else if hr.RemoteIndex != 0xfeedface || hr.MessageCounter != 0xfeedfacefeedface {
+					res.Mismatch("parse:short:fields-touched", fmt.Sprintf("a refused Parse of %d bytes changed the header object: %+v", len(in), hr), v.In)
+				}
 				return
+			}
+			if errRoomy != nil || hr != h {
+				res.Mismatch("parse:spare-capacity", fmt.Sprintf("Parse(%x) depends on the buffer behind the input: %+v (err=%v) vs %+v", in, hr, errRoomy, h), v.In)
 			}
 			if err != nil {
 				res.Mismatch("parse:error", fmt.Sprintf("Parse of %d bytes failed: %v", len(in), err), v.In)
